@@ -237,8 +237,17 @@ class UdpCheck:
                         lambda c, v: c.__setitem__("fates", dict(v))))
         return out
 
-    def trim(self, case):
-        return None
+    def trim(self, case, result, target):
+        """Cut the run short: end it shortly after the (run-time) violation, drop later plan directives."""
+        ts = [v.get("t") for v in result["violations"] if "%s|%s" % (v["kind"], v.get("key", "")) == target and v.get("t") is not None]
+        if not ts:
+            return None
+        end = min(ts) + 0.5
+        if end >= case["cfg"].get("duration", 0) - 0.5:
+            return None
+        case["cfg"]["duration"] = round(end, 3)
+        case["plan"] = [op for op in case["plan"] if op["t"] <= end]
+        return case
 
 
 def gen_traffic(rng, i, tier, *, nclients=None, retries=(0, 1, -1), n_msgs=None, cb_p=0.7, big=None,
